@@ -411,6 +411,10 @@ def apply(doc, case_seed, i, gen, kinds=None):
                 samplers = [q for q in e.params if isinstance(q, material.Sampler2D)]
                 if samplers and r.random() < 0.5:
                     m.sampler = r.choice(samplers)
+            if r.random() < 0.25:
+                # the bump map: replaced by another Map object, taken away, or given for the first time
+                samplers = [q for q in e.params if isinstance(q, material.Sampler2D)]
+                e.bumpmap = material.Map(r.choice(samplers), r.choice(['BUMPUV', 'TEX9'])) if samplers and r.random() < 0.7 else None
             e.reflectivity = r.choice([None, 0.5, 0.125])
             e.double_sided = r.random() < 0.5
             if e.transparent is None:
@@ -438,7 +442,7 @@ def apply(doc, case_seed, i, gen, kinds=None):
             m.symbol = r.choice(['sym0', 'symZ'])
             m.target = r.choice(list(doc.materials))
         elif k == 'geomname' and doc.geometries:
-            r.choice(list(doc.geometries)).name = r.choice(['gname', 'G2'])
+            r.choice(list(doc.geometries)).name = r.choice(['gname', 'G2', ''])     # (a name may also be taken away: the loader reads a missing name as '')
         elif k == 'geomds' and doc.geometries:
             on = [x for x in doc.geometries if x.double_sided]
             g = r.choice(on) if on and r.random() < 0.7 else r.choice(list(doc.geometries))   # switching OFF needs an element that says "1"
